@@ -778,3 +778,71 @@ impl<T: Sc> SeparableNonlinearModel for SignModel<T> {
         Ok(DMatrix::from_element(self.n, 2, T::zero()))
     }
 }
+
+
+/// Truncated Fourier series with a nonlinear fundamental frequency: 1, cos(k w x), sin(k w x),
+/// k = 1..H  (M = 2H+1 well conditioned basis functions on irregular sampling, P = 1).
+#[derive(Clone, Debug)]
+pub struct FourierModel<T: Sc> {
+    pub x: Vec<f64>,
+    pub h: usize,
+    pub params: DVector<T>,
+}
+impl<T: Sc> FourierModel<T> {
+    pub fn new(n: usize, h: usize, w: f64) -> Self {
+        let x = (0..n).map(|i| 0.07 * (i as f64 + 0.37 * (i as f64 * 1.3).sin())).collect();
+        Self { x, h, params: DVector::from_element(1, T::of64(w)) }
+    }
+    pub fn phi64(&self, w: f64) -> DMatrix<f64> {
+        DMatrix::from_fn(self.x.len(), 2 * self.h + 1, |i, j| {
+            if j == 0 {
+                1.0
+            } else {
+                let k = ((j + 1) / 2) as f64;
+                if j % 2 == 1 { (k * w * self.x[i]).cos() } else { (k * w * self.x[i]).sin() }
+            }
+        })
+    }
+}
+impl<T: Sc> SeparableNonlinearModel for FourierModel<T> {
+    type ScalarType = T;
+    type Error = MErr;
+    fn parameter_count(&self) -> usize {
+        1
+    }
+    fn base_function_count(&self) -> usize {
+        2 * self.h + 1
+    }
+    fn output_len(&self) -> usize {
+        self.x.len()
+    }
+    fn set_params(&mut self, parameters: OVector<T, Dyn>) -> Result<(), MErr> {
+        if parameters.len() != 1 {
+            return Err(MErr::Inner("parameter count".into()));
+        }
+        self.params = parameters;
+        Ok(())
+    }
+    fn params(&self) -> OVector<T, Dyn> {
+        self.params.clone()
+    }
+    fn eval(&self) -> Result<OMatrix<T, Dyn, Dyn>, MErr> {
+        let p = self.phi64(self.params[0].to64());
+        Ok(DMatrix::from_fn(p.nrows(), p.ncols(), |i, j| T::of64(p[(i, j)])))
+    }
+    fn eval_partial_deriv(&self, k: usize) -> Result<OMatrix<T, Dyn, Dyn>, MErr> {
+        if k != 0 {
+            return Err(MErr::Inner("derivative index".into()));
+        }
+        let w = self.params[0].to64();
+        Ok(DMatrix::from_fn(self.x.len(), 2 * self.h + 1, |i, j| {
+            if j == 0 {
+                T::zero()
+            } else {
+                let kk = ((j + 1) / 2) as f64;
+                let xi = self.x[i];
+                T::of64(if j % 2 == 1 { -kk * xi * (kk * w * xi).sin() } else { kk * xi * (kk * w * xi).cos() })
+            }
+        }))
+    }
+}
